@@ -119,6 +119,8 @@ def run(ctx):
             for e in evs:
                 if e[0] == "branch" and e[1] == "PartialEq::eq(err, Exit)":
                     is_exit.append(("arm", "err", ("Exit" if e[2] else "_",), 0))
+                elif e[0] == "iflet" and e[1] == "err" and e[2] == ("Exit",):      # `if let RuntimeError::Exit = err`
+                    is_exit.append(("arm", "err", ("Exit" if e[3] else "_",), 0))
             calls = [strip_generics(e[1]) for e in evs if e[0] == "call"]
             ncall = sum(1 for c in calls if c.endswith("ChangeableFn::call"))
             ncrit = sum(1 for c in calls if c.endswith("ErrorHook::handle_crit"))
